@@ -349,7 +349,11 @@ def _judge(want, have, closure=(), depth=0, conds=None, wconds=None):
         if missing + extra and all(k == 'exit' for k, _ in missing + extra) and {h for _, h in missing + extra} <= {'next', 'break', 'ret'} \
                 and [x for x in wsk if x[0] != 'exit'] == [x for x in hsk if x[0] != 'exit'] and ('ret None' in want + have or 'break' in want + have):
             return 'undecided', 'same calls and stores, the loop is continued / left / the function returns None in another way: loop exits may have been restructured'
-        if (missing or extra) and all(k == 'call' for k, _ in missing + extra) and all((h + '(') in have for _, h in missing) and all((h + '(') in want for _, h in extra):
+        def inline_use(h, text, eff):
+            # the callee occurs inside an expression of the other outcome (more often than it occurs as a step of its own)
+            return text.count(h + '(') > sum(1 for k2, h2, _ in eff if k2 == 'call' and h2 == h)
+        if (missing or extra) and all(k == 'call' for k, _ in missing + extra) and all(inline_use(h, have, _effects(have)) for _, h in missing) \
+                and all(inline_use(h, want, _effects(want)) for _, h in extra):
             return 'undecided', 'a call that is a recorded step on one side is an effect-free expression on the other (%s): its callee changed with it' % (missing or extra)
         if missing and extra and len(missing) == len(extra) and all(_re.search(r'\bobj\d+\b', h) for _, h in missing + extra) \
                 and sorted((k, h.rsplit('.', 1)[-1] if '.' in h else '') for k, h in missing) == sorted((k, h.rsplit('.', 1)[-1] if '.' in h else '') for k, h in extra):
